@@ -14,11 +14,11 @@ for diff in $LIST; do
   for ID in "$@"; do
     B=$(mktemp -d /tmp/evb.XXXXXX)
     case $ID in X*) EV=evidence/extra/$ID.json;; *) EV=evidence/$ID.json;; esac
-    cp $EV $B/ev.json 2>/dev/null
-    LENA_REPO=$D timeout 3000 ./check $ID --tier quick > $B/out.txt 2>&1; rc=$?
+
+    VERIF_EVIDENCE_DIR=$B/ev LENA_REPO=$D timeout 3000 ./check $ID --tier quick > $B/out.txt 2>&1; rc=$?
     echo "$diff $ID exit=$rc"
     if [ $rc != 0 ]; then RC=1; grep -E "VIOLATION|MACHINERY" $B/out.txt | head -3; fi
-    cp $B/ev.json $EV 2>/dev/null
+
     rm -rf $B
   done
   rm -rf $D
